@@ -374,3 +374,6 @@ H("C20", "css/parser", "VxH_C20_pairs_cdc", reach=["reparsed"], bounds="any sing
 H("C18", "svg", "VxH_C18_path_details", reach=["parsed"], bounds="an arc command (absolute / relative) with two argument groups, end points from small sets; a number with an upper-case exponent")
 H("C18", "svg", "VxH_C18_rect_radii", reach=["built"], bounds="<rect> with rx, ry each absent or one of three numbers")
 H("C18", "svg", "VxH_C18_value_units", reach=["parsed"], bounds="4 numbers x the 11 SVG length units x optional space")
+H("C16", "html/document", "VxH_C16_page_order", reach=["laid-out", "drawn"], bounds="page with / without background and border, canvas background from html, body or none, one coloured block", quick={"maxsteps": 200000000})
+for _p in ("C01", "C02"):
+    H(_p, "html/layout", "VxH_C01_table_row_avoid", mode="real", reach=["laid-out"], bounds="a table of two rows (two blocks, one block) with symbolic heights in [10,90] on 100px pages; tr break-inside auto / avoid", quick={"maxsteps": 60000000, "time": "500s", "shards": 4})
